@@ -98,6 +98,19 @@ def run(chk):
         except Exception as e:
             chk.count("recon-error-rejected:" + type(e).__name__)
             err = None
+        if rng.random() < 0.4:
+            # ... and an error curve whose user-supplied score function fails part-way (caught by the caller) changes nothing either
+            calls = [0]
+
+            def failing_score(a_, b_):
+                calls[0] += 1
+                if calls[0] >= 2:
+                    raise RuntimeError("user score function failed")
+                return 0.0
+            try:
+                impl.quiet(model.reconstruction_error, Xt.copy(), sensor_range=np.array([1, max(1, min(p, n) - 1), 1]), score=failing_score)
+            except Exception:
+                chk.count("recon_error_failed_part_way")
         if (model.n_sensors, np.array(model.ranked_sensors_).tolist()) != before:
             chk.violation("impl", "reconstruction-error-changes-model", "reconstruction_error changed n_sensors or the ranking", case)
         if err is not None:
@@ -125,6 +138,12 @@ def run(chk):
                 chk.violation("impl", "relative-error-wrong", f"relative_reconstruction_error = {rel}, 100*|d-p|/|d| = {expr}", case)
             exprs.append(f"rel_err2 {C.cqmat(fr_rows(Xt))} {C.cqmat(fr_rows(pred))}")
             meta.append(("rel", rel * rel, 1e-9, {**case, "what": "relative error"}))
+            # the same experiment in tiny (2^-70) and huge (2^70) units - an exact rescaling of data and prediction - has the same relative error
+            for sc in (2.0 ** -70, 2.0 ** 70):
+                rel_s = float(relative_reconstruction_error(Xt * sc, pred * sc))
+                if abs(rel_s - rel) > 1e-9 * (1 + abs(rel)):
+                    chk.violation("impl", "relative-error-not-scale-invariant", f"relative_reconstruction_error of the same data and prediction in units of {sc:.3g}: "
+                                  f"{rel_s}, in ordinary units {rel}", {**case, "scale": sc})
         # the same for data held in narrow integer types (pixel data) and float32: the definition is about the numbers, not the dtype
         for dt, lo, hi in ((np.uint8, 0, 256), (np.int16, -3000, 3000), (np.float32, -50, 50)):
             D = rng.integers(lo, hi, size=(3, 6)).astype(dt)
